@@ -65,3 +65,9 @@ add('C11', 'property-based testing: validity predicates over generated call hist
     'with four hash seeds and compared byte-wise.',
     'Trusted: Python structural equality; hash-seed independence is sampled (4 seeds, one batch per run).',
     'DESIGN.md section 5 C11')
+add('C08', 'property-based testing: metamorphic relation between generated unit spellings of the same durations (bound suffixes, default unit, period unit), reference with bounds in periods, and an exception oracle for off-grid bounds (Hypothesis)',
+    'Two independently drawn spellings (per-bound unit, bare default unit, period written in another unit, other default unit) are evaluated offline, online and after pastify() '
+    'and must agree with each other and with R-dt computed with bound/period; a bound moved off the sampling grid must raise RTAMTException; dense-time results must be '
+    'invariant under explicit-unit spellings and a restatement of the whole case in another default unit.',
+    'Trusted: the unit table s/ms/us/ns = 1e9/1e6/1e3/1 ns, the reading that time stamps are in the default unit; next/s_next excluded from the units lanes.',
+    'DESIGN.md section 5 C08')
